@@ -44,7 +44,9 @@ def cases(draw):
     for _ in range(draw(st.integers(1, 3))):
         sel, dt = draw(st.sampled_from(KEYS))
         keys.append({'select': sel, 'data-type': dt if draw(st.integers(0, 5)) else None, 'dt': dt,
-                     'order': draw(st.sampled_from([None, 'ascending', 'descending']))})
+                     'order': draw(st.sampled_from([None, 'ascending', 'descending'])),
+                     # text keys over [a-z0-9]: the collation of 'en' orders them like code points, so lang= must not change the result
+                     'lang': draw(st.sampled_from([None, None, 'en', 'en-US'])) if dt == 'text' else None})
     for k in keys:
         if k['data-type'] is None:
             k['dt'] = 'text'
@@ -69,7 +71,7 @@ def source(case):
 def stylesheet(case):
     sorts = ''.join('<xsl:sort select="%s"%s%s/>' % (k['select'].replace('<', '&lt;'),
                                                    ' data-type="%s"' % k['data-type'] if k['data-type'] else '',
-                                                   ' order="%s"' % k['order'] if k['order'] else '') for k in case['keys'])
+                                                   (' order="%s"' % k['order'] if k['order'] else '') + (' lang="%s"' % k['lang'] if k.get('lang') else '')) for k in case['keys'])
     body = '<xsl:value-of select="@id"/>,<xsl:value-of select="position()"/>,<xsl:value-of select="last()"/>;'
     if case['how'] == 'for-each':
         main = '<xsl:for-each select="%s">%s%s</xsl:for-each>' % (case['select'], sorts, body)
@@ -123,6 +125,14 @@ def check(ctx, case):
     for p, row in enumerate(rows):
         if row[1] != str(p + 1) or row[2] != str(n):
             return {'what': 'position-last', 'row': row, 'index': p, 'n': n}
+
+    # a key with lang= is collated by the ICU tailoring of that language, which this oracle only knows for [a-z0-9] (there it is code
+    # point order): if such a key sees any other character (e.g. the upper-case 'NaN') the ordering is not judged
+    import re as _re
+    for i, k in enumerate(case['keys']):
+        if k.get('lang') and any(isinstance(kv[i], str) and not _re.fullmatch(r'[a-z0-9]*', kv[i]) for kv in keyvals.values()):
+            ctx.counters['unjudged:lang-key-outside-a-z0-9'] += 1
+            return None
 
     def cmp_pair(a, b):
         """-1 if a must come before b, 1 if after, 0 if equal on all keys"""
